@@ -2310,13 +2310,22 @@ func ruleLexComment(c *Ctx) []Obligation {
 				continue
 			}
 			cand := FuncDecl(r.pkg, "Lexer", cs.fn)
-			if cand == nil || cand.Type.Results != nil && len(cand.Type.Results.List) > 0 {
+			// a skipper returns nothing, or only an error (for input that is not a complete comment)
+			if cand == nil {
 				continue
+			}
+			if cand.Type.Results != nil && len(cand.Type.Results.List) > 0 {
+				if len(cand.Type.Results.List) != 1 {
+					continue
+				}
+				if _, isPtr := r.pkg.TypesInfo.TypeOf(cand.Type.Results.List[0].Type).(*types.Pointer); !isPtr {
+					continue
+				}
 			}
 			fd, entry = cand, cs.facts
 		}
 		if fd == nil {
-			o.Status, o.Detail = Undecided, fmt.Sprintf("no result-less Lexer method is entered from NextToken on the opener %q", al.open)
+			o.Status, o.Detail = Undecided, fmt.Sprintf("no Lexer method without a result (or with only an error result) is entered from NextToken on the opener %q", al.open)
 			obs = append(obs, o)
 			continue
 		}
